@@ -588,10 +588,24 @@ func (s *Stream) CloseRead() {
 	} else {
 		s.inclosed.set()
 	}
-	discarded := s.in.end - s.in.start
+	// Connection-level flow control for bytes in the fast-path read buffer
+	// has already been returned.
+	discarded := s.in.end - s.in.start - s.dropInbuf()
 	s.in.discardBefore(s.in.end)
 	s.inUnlock()
 	s.conn.handleStreamBytesReadOffLoop(discarded) // must be done with ingate unlocked
+}
+
+// dropInbuf discards the fast-path read buffer and returns the number of bytes
+// that were in it. The buffer aliases storage owned by s.in, so it must not
+// outlive a discard of that storage. The caller must hold ingate.
+func (s *Stream) dropInbuf() int64 {
+	s.inbufmu.Lock()
+	defer s.inbufmu.Unlock()
+	n := int64(len(s.inbuf))
+	s.inbuf = nil
+	s.inbufoff = 0
+	return n
 }
 
 // CloseWrite aborts writes on the stream.
@@ -848,7 +862,9 @@ func (s *Stream) handleReset(code uint64, finalSize int64) error {
 			return err
 		}
 	}
-	s.conn.handleStreamBytesReadOnLoop(finalSize - s.in.start)
+	// Connection-level flow control for bytes in the fast-path read buffer
+	// has already been returned.
+	s.conn.handleStreamBytesReadOnLoop(finalSize - s.in.start - s.dropInbuf())
 	s.in.discardBefore(s.in.end)
 	s.inresetcode = int64(code)
 	s.insize = finalSize
